@@ -25,7 +25,7 @@ REQUIRE = {'docs_srt': 20, 'docs_webvtt': 20, 'docs_dfxp': 20, 'docs_sami': 20, 
 def cases(ctx):
     rng = ctx.rng('c04')
     fmts = sorted(docs.GENERATORS)
-    for i in range(ctx.budget(3000, 200000)):
+    for i in range(ctx.budget(9000, 300000)):
         fmt = fmts[i % len(fmts)]
         yield docs.generate(fmt, rng, f'R{ctx.shard}.{i}', ctx, text=inline.rich_lines)
 
